@@ -192,6 +192,12 @@ class StmtMixin:
                     for i, t in enumerate(tgt.elts):
                         self.assign_to(t, self.opaque("unpack%d" % i, [v]), st, exc)
                     return
+                if v.ty.kind == "list" and v.ty.args[0].kind != "unknown":
+                    # unpacking a list: ValueError unless it has exactly as many elements as there are targets
+                    self.require_noexc(st, smt.Eq(smt.Len(v.ts[0]), smt.Int(len(tgt.elts))), "ValueError", "unpack_count", exc)
+                    for i, t in enumerate(tgt.elts):
+                        self.assign_to(t, SV(v.ty.args[0], [smt.At(c, smt.Int(i)) for c in v.ts]), st, exc)
+                    return
                 raise Unsupported("unpacking %r into %d targets" % (v.ty, len(tgt.elts)))
             for t, it in zip(tgt.elts, tuple_items(v)):
                 self.assign_to(t, it, st, exc)
